@@ -3,8 +3,9 @@
 
    SparseArray.reduce:   normalise the axes (generated g_normalize_axis), admissibility test
                          `method.reduce([fill, fill]) == fill or method in _reduce_super_ufunc`,
-                         _reduce_calc, fill correction per output cell, _reduce_return,
-                         keepdims reshape, 0-d -> scalar.
+                         _reduce_calc, fill correction per output cell in three branches (nothing
+                         reduced: identity or ValueError / plain / add-multiply correction restricted
+                         to deficient groups), _reduce_return, keepdims reshape, 0-d -> scalar.
    COO._reduce_calc:     transpose to (kept axes ++ reduced axes), reshape to 2-D
                          (rows = kept, cols = reduced), _grouped_reduce on the row numbers.
    _calc_counts_invidx:  starts and sizes of the runs of equal row numbers (np.intp arrays:
@@ -12,9 +13,9 @@
    _grouped_reduce:      ufunc.reduceat at the run starts.
    COO._reduce_return:   COO(rows at the run starts, data, prune=True).reshape(kept extents).
    GCXS:                 the decision structure of GCXS._reduce_calc (IndexError on the empty
-                         tuple, flatten().tocoo() path for None / (0..ndim-1), change of
-                         compressed axes to the kept axes otherwise — which ignores the order and
-                         multiplicity of the axes and fails when nothing is kept); the grouped
+                         tuple, flatten().tocoo() path for None / any ordering of all axes, change
+                         of compressed axes to the kept axes otherwise — which ignores the order and
+                         multiplicity of the axes); the grouped
                          reduction over the rows of the re-compressed array is the same function of
                          the sorted (row, col) list as in the COO path and is modelled by it (the
                          indptr form of the groups is [gcxs_groups]).
@@ -61,6 +62,11 @@ Fixpoint zlist_eqb (a b : list Z) : bool :=
   | x :: a', y :: b' => (x =? y) && zlist_eqb a' b'
   | _, _ => false
   end.
+
+(* np.sort of a tuple of ints *)
+Fixpoint zinsert (a : Z) (l : list Z) : list Z :=
+  match l with [] => [a] | b :: r => if a <=? b then a :: b :: r else b :: zinsert a r end.
+Definition zsort (l : list Z) : list Z := fold_right zinsert [] l.
 
 Fixpoint nodupb (l : list Z) : bool :=
   match l with [] => true | a :: r => negb (mem_z a r) && nodupb r end.
@@ -133,6 +139,7 @@ Section Generic.
   Variable op : V -> V -> V.
   Variable cast : V -> V.                 (* operand cast of the loop of the ufunc: identity except for the logical ones *)
   Variable sup : option (V -> Z -> V).    (* _reduce_super_ufunc.get(method), applied to (fill, count) *)
+  Variable ident : option V.              (* method.identity *)
 
   (* ufunc.reduce of a non-empty list: left fold from the first element *)
   Definition fold1 (d : V) (l : list V) : V :=
@@ -268,17 +275,20 @@ Section Generic.
     nax <- norm_axes ndim ax ;;
     if negb (admissible f) then Raise ValueError else Ok nax.
 
+  (* the three branches `if n_cols == 0 / elif reduce_super_ufunc is None / else`, per output cell *)
   Definition fix_cell (f : V) (ncols : Z) (d : V) (c : Z) : V :=
-    match sup with
-    | None => if negb (c =? ncols) then op d (cast f) else d
-    | Some s => op d (s f (ncols - c))
-    end.
+    if ncols =? 0 then d
+    else match sup with
+         | None => if negb (c =? ncols) then op d (cast f) else d
+         | Some s => if negb (c =? ncols) then op d (s f (ncols - c)) else d
+         end.
 
-  Definition result_fill (f : V) (ncols : Z) : V :=
-    match sup with None => f | Some s => s f ncols end.
+  Definition result_fill (f : V) (ncols : Z) : res V :=
+    if ncols =? 0 then match ident with None => Raise ValueError | Some e => Ok e end
+    else Ok (match sup with None => f | Some s => s f ncols end).
 
   Definition reduce_coo : axis_arg -> bool -> coo V -> res rres :=
-    reduce_coo_with head_generic (fun f n d c => Ok (fix_cell f n d c)) (fun f n => Ok (result_fill f n)).
+    reduce_coo_with head_generic (fun f n d c => Ok (fix_cell f n d c)) result_fill.
 
   (* ---------------------------------------------------------------- GCXS *)
 
@@ -297,7 +307,8 @@ Section Generic.
     match nax with
     | Some [] => Raise IndexError            (* axis[0] on the empty tuple *)
     | _ =>
-      let full := match nax with None => true | Some l => zlist_eqb l (zrange ndim) end in
+      (* axis[0] is None or np.array_equal(np.sort(axis), np.arange(ndim)) *)
+      let full := match nax with None => true | Some l => zlist_eqb (zsort l) (zrange ndim) end in
       if full then
         (* x = self.flatten().tocoo(); out = x.reduce(method, axis=None, keepdims=keepdims);
            keepdims: out.reshape(ones(ndim)) *)
@@ -328,7 +339,7 @@ Section Generic.
     end.
 
   Definition gcxs_reduce : axis_arg -> bool -> gcxs V -> res rres :=
-    gcxs_reduce_with head_generic (fun f n d c => Ok (fix_cell f n d c)) (fun f n => Ok (result_fill f n)).
+    gcxs_reduce_with head_generic (fun f n d c => Ok (fix_cell f n d c)) result_fill.
 
   Definition rres_shape (r : rres) : shape := match r with RArr c => c_shape c | RScalar _ => [] end.
   Definition rres_den (r : rres) (ix : idx) : V := match r with RArr c => den c ix | RScalar v => v end.
@@ -369,25 +380,15 @@ Definition head_z (m : Z) (ndim : Z) (f : Z) (ax : axis_arg) : res (option (list
 Definition rsu_z (m : Z) : pyv :=
   match ext_table_get s_super_table (VInt m) with Ok v => v | Raise _ => VNone end.
 
-(* the dispatch `if reduce_super_ufunc is None:` between the two generated branches *)
+(* the generated correction block (s_reduce_fix) for one output cell: corrected value ... *)
 Definition fix_z (m : Z) (f ncols d c : Z) : res Z :=
-  match rsu_z m with
-  | VNone =>
-    r <- s_reduce_fix_plain (VInt m) (VInt f) (VInt d) (VInt c) (VInt ncols) ;;
-    match r with VTuple [v] => as_z (Ok v) | _ => Raise OtherError end
-  | rsu =>
-    r <- g_reduce_super (VInt m) rsu (VInt f) (VInt d) (VInt c) (VInt ncols) ;;
-    match r with VTuple [v; _] => as_z (Ok v) | _ => Raise OtherError end
-  end.
+  r <- s_reduce_fix (VInt m) (rsu_z m) (VInt f) (VInt d) (VInt c) (VInt ncols) ;;
+  match r with VTuple [v; _] => as_z (Ok v) | _ => Raise OtherError end.
 
-(* `result_fill_value = self.fill_value`, overwritten in the super branch *)
+(* ... and the fill value of the result (independent of the cell) *)
 Definition rfill_z (m : Z) (f ncols : Z) : res Z :=
-  match rsu_z m with
-  | VNone => Ok f
-  | rsu =>
-    r <- g_reduce_super (VInt m) rsu (VInt f) (VInt 0) (VInt 0) (VInt ncols) ;;
-    match r with VTuple [_; v] => as_z (Ok v) | _ => Raise OtherError end
-  end.
+  r <- s_reduce_fix (VInt m) (rsu_z m) (VInt f) (VInt 0) (VInt 0) (VInt ncols) ;;
+  match r with VTuple [_; v] => as_z (Ok v) | _ => Raise OtherError end.
 
 Definition reduce_coo_z (m : Z) : axis_arg -> bool -> coo Z -> res (rres Z) :=
   reduce_coo_with Z Z.eqb (op_z m) (ufunc_cast m) (head_z m) (fix_z m) (rfill_z m).
@@ -397,24 +398,12 @@ Definition gcxs_reduce_z (m : Z) : axis_arg -> bool -> gcxs Z -> res (rres Z) :=
 
 (* ------------------------------------------------------------------ domain clauses *)
 
-(* D15/D11: in the plain (non add/multiply) branch a zero-length reduced axis gives the fill
-   instead of the ufunc's identity, and returns where NumPy raises for minimum/maximum *)
-Definition reduced_extents_positive (plain : bool) (sh : shape) (axes : list Z) : bool :=
-  negb plain || (0 <? size (sel 0 axes sh)).
-
 (* what GCXS._reduce_calc needs of the normalised axis tuple (None is always fine):
-   gcxs_axes_nonempty            `axis[0]` raises IndexError on the empty tuple;
-   gcxs_axes_distinct            repeated axes are silently accepted (`set(axis)`) where NumPy raises;
-   gcxs_axes_not_permuted_full   D16: a tuple naming every axis in another order than (0..ndim-1)
-                                 leaves no axis to compress and fails inside change_compressed_axes *)
+   gcxs_axes_nonempty   `axis[0]` raises IndexError on the empty tuple;
+   gcxs_axes_distinct   repeated axes are silently accepted (`set(axis)`) where NumPy raises *)
 Definition gcxs_axes_nonempty (nax : option (list Z)) : bool :=
   match nax with Some [] => false | _ => true end.
 Definition gcxs_axes_distinct (nax : option (list Z)) : bool :=
   match nax with Some l => nodupb l | None => true end.
-Definition gcxs_axes_not_permuted_full (ndim : Z) (nax : option (list Z)) : bool :=
-  match nax with
-  | Some l => negb (zlen (kept_axes ndim l) =? 0) || zlist_eqb l (zrange ndim)
-  | None => true
-  end.
-Definition gcxs_axes_ok (ndim : Z) (nax : option (list Z)) : bool :=
-  gcxs_axes_nonempty nax && gcxs_axes_distinct nax && gcxs_axes_not_permuted_full ndim nax.
+Definition gcxs_axes_ok (nax : option (list Z)) : bool :=
+  gcxs_axes_nonempty nax && gcxs_axes_distinct nax.
